@@ -26,7 +26,7 @@ Thorough tier: the same under the ASan+UBSan build.
 
 Not done (stated in the evidence): random byte-level mutation — the bounded enumeration over the
 mode model is what this family offers for "all byte strings"."""
-import json, os, re, resource, time
+import json, os, re, resource, shutil, time
 from ..common import MachineryError, NCPU
 from .. import build, tlc, run
 
@@ -492,6 +492,7 @@ def execute(j, kind, scale=1):
                  ndiag=len(DIAG.findall(r.stderr)), sanitizer=bool(SANITIZER.search(r.stderr)),
                  nerr=reported_errors(r.stderr),
                  parse_error=(reported_errors(r.stderr) > 0 or "Error in p" in r.stderr or "failed to parse" in r.stderr))
+    shutil.rmtree(j.dir, ignore_errors=True)      # everything needed later is in j.res / the job itself
     return j
 
 
